@@ -4,12 +4,41 @@ use super::ast::*;
 use super::lexer::{Lexer, Token, TokenKind};
 use grafeo_common::utils::error::{Error, QueryError, QueryErrorKind, Result, SourceSpan};
 
+/// Deepest nesting of expressions and subqueries the parser follows.
+///
+/// The parser is recursive descent and every later stage (translator, binder, optimizer,
+/// planner, `Drop`) walks the tree recursively as well, so unbounded nesting in the query
+/// text overflows the stack, which aborts the process instead of returning an error. One
+/// level of parentheses costs the parser about 5.5 KiB of stack in a debug build, so 128
+/// levels stay well inside the 2 MiB stack of a spawned thread.
+const MAX_NESTING_DEPTH: usize = 128;
+
+/// Tallest expression tree the parser builds.
+///
+/// Operator chains such as `a AND b AND c` nest to the left without any recursion in the
+/// parser, so they are bounded through the height of the tree they produce rather than
+/// through the nesting depth.
+const MAX_EXPRESSION_DEPTH: usize = 256;
+
+/// Most clauses, patterns, pattern elements and SET/REMOVE/DELETE items in one statement.
+///
+/// Each of them becomes (at least) one operator stacked on top of the previous ones in the
+/// query plan, which the later stages again walk recursively.
+const MAX_STATEMENT_PARTS: usize = 2048;
+
 /// GQL Parser.
 pub struct Parser<'a> {
     lexer: Lexer<'a>,
     current: Token,
     peeked: Option<Token>,
     source: &'a str,
+    /// Number of nested productions currently being parsed.
+    depth: usize,
+    /// Height of the tallest expression tree completed since the enclosing tree node was
+    /// started (see `begin_node`).
+    height: usize,
+    /// Number of clauses and pattern elements parsed so far.
+    parts: usize,
 }
 
 impl<'a> Parser<'a> {
@@ -22,7 +51,53 @@ impl<'a> Parser<'a> {
             current,
             peeked: None,
             source: input,
+            depth: 0,
+            height: 0,
+            parts: 0,
         }
+    }
+
+    /// Enters a production that can contain itself; pair with `leave`.
+    fn enter(&mut self) -> Result<()> {
+        if self.depth >= MAX_NESTING_DEPTH {
+            return Err(self.error("Expression nested too deeply"));
+        }
+        self.depth += 1;
+        Ok(())
+    }
+
+    /// Leaves a production entered with `enter`.
+    fn leave(&mut self) {
+        self.depth -= 1;
+    }
+
+    /// Starts a node of the expression tree: the operands parsed from here on are its
+    /// children. Returns the height recorded for the node's siblings, for `end_node`.
+    fn begin_node(&mut self) -> usize {
+        std::mem::take(&mut self.height)
+    }
+
+    /// Puts one node on top of the operands parsed since `begin_node`.
+    fn grow(&mut self) -> Result<()> {
+        if self.height >= MAX_EXPRESSION_DEPTH {
+            return Err(self.error("Expression nested too deeply"));
+        }
+        self.height += 1;
+        Ok(())
+    }
+
+    /// Ends the node started by the `begin_node` that returned `siblings`.
+    fn end_node(&mut self, siblings: usize) {
+        self.height = self.height.max(siblings);
+    }
+
+    /// Counts one more clause, pattern element or SET/REMOVE/DELETE item.
+    fn count_part(&mut self) -> Result<()> {
+        if self.parts >= MAX_STATEMENT_PARTS {
+            return Err(self.error("Query has too many clauses and pattern elements"));
+        }
+        self.parts += 1;
+        Ok(())
     }
 
     /// Checks if the current token can be used as a label or type name.
@@ -286,6 +361,8 @@ impl<'a> Parser<'a> {
         let mut label_operations = Vec::new();
 
         loop {
+            self.count_part()?;
+
             // Parse variable name
             if !self.is_identifier() {
                 return Err(self.error("Expected variable name in SET"));
@@ -351,6 +428,8 @@ impl<'a> Parser<'a> {
         let mut property_removals = Vec::new();
 
         loop {
+            self.count_part()?;
+
             // Parse variable name
             if !self.is_identifier() {
                 return Err(self.error("Expected variable name in REMOVE"));
@@ -403,6 +482,7 @@ impl<'a> Parser<'a> {
     fn parse_unwind_clause(&mut self) -> Result<UnwindClause> {
         let span_start = self.current.span.start;
         self.expect(TokenKind::Unwind)?;
+        self.count_part()?;
 
         // Parse the expression to unwind
         let expression = self.parse_expression()?;
@@ -427,6 +507,7 @@ impl<'a> Parser<'a> {
     fn parse_merge_clause(&mut self) -> Result<MergeClause> {
         let span_start = self.current.span.start;
         self.expect(TokenKind::Merge)?;
+        self.count_part()?;
 
         // Parse the pattern to merge
         let pattern = self.parse_pattern()?;
@@ -462,6 +543,8 @@ impl<'a> Parser<'a> {
     fn parse_property_assignments(&mut self) -> Result<Vec<PropertyAssignment>> {
         let mut assignments = Vec::new();
         loop {
+            self.count_part()?;
+
             // Parse variable.property = expression
             if !self.is_identifier() {
                 return Err(self.error("Expected variable name"));
@@ -509,6 +592,7 @@ impl<'a> Parser<'a> {
         };
 
         self.expect(TokenKind::Match)?;
+        self.count_part()?;
 
         let mut patterns = Vec::new();
         patterns.push(self.parse_aliased_pattern()?);
@@ -568,6 +652,7 @@ impl<'a> Parser<'a> {
     fn parse_with_clause(&mut self) -> Result<WithClause> {
         let span_start = self.current.span.start;
         self.expect(TokenKind::With)?;
+        self.count_part()?;
 
         let distinct = if self.current.kind == TokenKind::Distinct {
             self.advance();
@@ -629,6 +714,7 @@ impl<'a> Parser<'a> {
 
     fn parse_node_pattern(&mut self) -> Result<NodePattern> {
         self.expect(TokenKind::LParen)?;
+        self.count_part()?;
 
         let variable = if self.is_identifier() {
             let name = self.get_identifier_name();
@@ -669,6 +755,7 @@ impl<'a> Parser<'a> {
         // Handle both styles:
         // 1. `-[...]->` or `-[:TYPE]->` or `-[:TYPE*1..3]->` (direction determined by trailing arrow)
         // 2. `->` or `<-` or `--` (direction determined by leading arrow)
+        self.count_part()?;
 
         let (variable, types, min_hops, max_hops, properties, direction) =
             if self.current.kind == TokenKind::Minus {
@@ -1023,15 +1110,20 @@ impl<'a> Parser<'a> {
     }
 
     fn parse_expression(&mut self) -> Result<Expression> {
-        self.parse_or_expression()
+        self.enter()?;
+        let expression = self.parse_or_expression();
+        self.leave();
+        expression
     }
 
     fn parse_or_expression(&mut self) -> Result<Expression> {
+        let siblings = self.begin_node();
         let mut left = self.parse_and_expression()?;
 
         while self.current.kind == TokenKind::Or {
             self.advance();
             let right = self.parse_and_expression()?;
+            self.grow()?;
             left = Expression::Binary {
                 left: Box::new(left),
                 op: BinaryOp::Or,
@@ -1039,15 +1131,18 @@ impl<'a> Parser<'a> {
             };
         }
 
+        self.end_node(siblings);
         Ok(left)
     }
 
     fn parse_and_expression(&mut self) -> Result<Expression> {
+        let siblings = self.begin_node();
         let mut left = self.parse_comparison_expression()?;
 
         while self.current.kind == TokenKind::And {
             self.advance();
             let right = self.parse_comparison_expression()?;
+            self.grow()?;
             left = Expression::Binary {
                 left: Box::new(left),
                 op: BinaryOp::And,
@@ -1055,10 +1150,18 @@ impl<'a> Parser<'a> {
             };
         }
 
+        self.end_node(siblings);
         Ok(left)
     }
 
     fn parse_comparison_expression(&mut self) -> Result<Expression> {
+        let siblings = self.begin_node();
+        let expression = self.parse_comparison_operands()?;
+        self.end_node(siblings);
+        Ok(expression)
+    }
+
+    fn parse_comparison_operands(&mut self) -> Result<Expression> {
         let left = self.parse_additive_expression()?;
 
         // Check for regular comparison operators
@@ -1075,6 +1178,7 @@ impl<'a> Parser<'a> {
         if let Some(op) = op {
             self.advance();
             let right = self.parse_additive_expression()?;
+            self.grow()?;
             return Ok(Expression::Binary {
                 left: Box::new(left),
                 op,
@@ -1088,6 +1192,7 @@ impl<'a> Parser<'a> {
                 self.advance(); // consume STARTS
                 self.expect(TokenKind::With)?; // expect WITH
                 let right = self.parse_additive_expression()?;
+                self.grow()?;
                 return Ok(Expression::Binary {
                     left: Box::new(left),
                     op: BinaryOp::StartsWith,
@@ -1098,6 +1203,7 @@ impl<'a> Parser<'a> {
                 self.advance(); // consume ENDS
                 self.expect(TokenKind::With)?; // expect WITH
                 let right = self.parse_additive_expression()?;
+                self.grow()?;
                 return Ok(Expression::Binary {
                     left: Box::new(left),
                     op: BinaryOp::EndsWith,
@@ -1107,6 +1213,7 @@ impl<'a> Parser<'a> {
             TokenKind::Contains => {
                 self.advance(); // consume CONTAINS
                 let right = self.parse_additive_expression()?;
+                self.grow()?;
                 return Ok(Expression::Binary {
                     left: Box::new(left),
                     op: BinaryOp::Contains,
@@ -1120,6 +1227,7 @@ impl<'a> Parser<'a> {
     }
 
     fn parse_additive_expression(&mut self) -> Result<Expression> {
+        let siblings = self.begin_node();
         let mut left = self.parse_multiplicative_expression()?;
 
         loop {
@@ -1130,6 +1238,7 @@ impl<'a> Parser<'a> {
             };
             self.advance();
             let right = self.parse_multiplicative_expression()?;
+            self.grow()?;
             left = Expression::Binary {
                 left: Box::new(left),
                 op,
@@ -1137,10 +1246,12 @@ impl<'a> Parser<'a> {
             };
         }
 
+        self.end_node(siblings);
         Ok(left)
     }
 
     fn parse_multiplicative_expression(&mut self) -> Result<Expression> {
+        let siblings = self.begin_node();
         let mut left = self.parse_unary_expression()?;
 
         loop {
@@ -1152,6 +1263,7 @@ impl<'a> Parser<'a> {
             };
             self.advance();
             let right = self.parse_unary_expression()?;
+            self.grow()?;
             left = Expression::Binary {
                 left: Box::new(left),
                 op,
@@ -1159,32 +1271,55 @@ impl<'a> Parser<'a> {
             };
         }
 
+        self.end_node(siblings);
         Ok(left)
     }
 
     fn parse_unary_expression(&mut self) -> Result<Expression> {
-        match self.current.kind {
-            TokenKind::Not => {
-                self.advance();
-                let operand = self.parse_unary_expression()?;
-                Ok(Expression::Unary {
-                    op: UnaryOp::Not,
-                    operand: Box::new(operand),
-                })
-            }
-            TokenKind::Minus => {
-                self.advance();
-                let operand = self.parse_unary_expression()?;
-                Ok(Expression::Unary {
-                    op: UnaryOp::Neg,
-                    operand: Box::new(operand),
-                })
-            }
-            _ => self.parse_primary_expression(),
-        }
+        let op = match self.current.kind {
+            TokenKind::Not => UnaryOp::Not,
+            TokenKind::Minus => UnaryOp::Neg,
+            _ => return self.parse_primary_expression(),
+        };
+        self.advance();
+        self.enter()?;
+        let siblings = self.begin_node();
+        let operand = self.parse_unary_expression();
+        self.leave();
+        let operand = operand?;
+        self.grow()?;
+        self.end_node(siblings);
+        Ok(Expression::Unary {
+            op,
+            operand: Box::new(operand),
+        })
     }
 
+    /// Parses a primary expression. The ones with operands of their own (function calls,
+    /// lists, CASE, EXISTS) are one node of the expression tree on top of their operands.
     fn parse_primary_expression(&mut self) -> Result<Expression> {
+        if self.current.kind == TokenKind::LParen {
+            // Parentheses group, they are no node of their own
+            self.advance();
+            let expr = self.parse_expression()?;
+            self.expect(TokenKind::RParen)?;
+            return Ok(expr);
+        }
+
+        let siblings = self.begin_node();
+        let expression = self.parse_primary_node()?;
+        match expression {
+            Expression::FunctionCall { .. }
+            | Expression::List(_)
+            | Expression::Case { .. }
+            | Expression::ExistsSubquery { .. } => self.grow()?,
+            _ => {}
+        }
+        self.end_node(siblings);
+        Ok(expression)
+    }
+
+    fn parse_primary_node(&mut self) -> Result<Expression> {
         match self.current.kind {
             TokenKind::Null => {
                 self.advance();
@@ -1318,12 +1453,6 @@ impl<'a> Parser<'a> {
                     Ok(Expression::Variable(name))
                 }
             }
-            TokenKind::LParen => {
-                self.advance();
-                let expr = self.parse_expression()?;
-                self.expect(TokenKind::RParen)?;
-                Ok(expr)
-            }
             TokenKind::LBracket => {
                 self.advance();
                 let mut elements = Vec::new();
@@ -1453,6 +1582,10 @@ impl<'a> Parser<'a> {
 
         if self.current.kind != TokenKind::RBrace {
             loop {
+                // In a MATCH every entry becomes one more operand of an AND chain
+                if properties.len() >= MAX_STATEMENT_PARTS {
+                    return Err(self.error("Property map has too many entries"));
+                }
                 if !self.is_identifier() {
                     return Err(self.error("Expected property name"));
                 }
@@ -1543,11 +1676,13 @@ impl<'a> Parser<'a> {
         if !self.is_identifier() {
             return Err(self.error("Expected variable name in DELETE"));
         }
+        self.count_part()?;
         variables.push(self.get_identifier_name());
         self.advance();
 
         while self.current.kind == TokenKind::Comma {
             self.advance();
+            self.count_part()?;
             if !self.is_identifier() {
                 return Err(self.error("Expected variable name in DELETE"));
             }
@@ -1581,6 +1716,7 @@ impl<'a> Parser<'a> {
 
         while self.current.kind == TokenKind::Comma {
             self.advance();
+            self.count_part()?;
             if self.current.kind != TokenKind::Identifier {
                 return Err(self.error("Expected variable name"));
             }
@@ -2330,6 +2466,106 @@ mod tests {
             assert_eq!(stmt.metric, Some("cosine".to_string()));
         } else {
             panic!("Expected CreateVectorIndex statement");
+        }
+    }
+
+    fn nesting_error(query: &str) -> String {
+        let mut parser = Parser::new(query);
+        match parser.parse() {
+            Ok(_) => panic!("expected a nesting error"),
+            // The rendered error quotes the query, keep only the message line
+            Err(e) => e.to_string().lines().next().unwrap_or_default().to_string(),
+        }
+    }
+
+    #[test]
+    fn test_deeply_nested_expression_is_an_error() {
+        // Moderate nesting still parses
+        let ok = format!("MATCH (n) RETURN {}1{}", "(".repeat(100), ")".repeat(100));
+        assert!(Parser::new(&ok).parse().is_ok());
+
+        // Every nesting production reports an error instead of overflowing the stack
+        let n = 100_000;
+        for query in [
+            format!("MATCH (n) RETURN {}1{}", "(".repeat(n), ")".repeat(n)),
+            format!(
+                "MATCH (n) WHERE n.x = {}{} RETURN n",
+                "[".repeat(n),
+                "]".repeat(n)
+            ),
+            format!("MATCH (n) RETURN {}1{}", "abs(".repeat(n), ")".repeat(n)),
+            format!(
+                "MATCH (n) RETURN {}1{}",
+                "CASE WHEN true THEN ".repeat(n),
+                " END".repeat(n)
+            ),
+            format!("MATCH (n) WHERE {}n.age > 1 RETURN n", "NOT ".repeat(n)),
+            format!("MATCH (n) WHERE n.x = {}1 RETURN n", "- ".repeat(n)),
+            format!(
+                "MATCH (n) WHERE {}true{} RETURN n",
+                "EXISTS { MATCH (n)-[:KNOWS]->(m) WHERE ".repeat(n),
+                " }".repeat(n)
+            ),
+            format!(
+                "MATCH (n {{a: {}{}}}) RETURN n",
+                "[".repeat(n),
+                "]".repeat(n)
+            ),
+        ] {
+            let message = nesting_error(&query);
+            assert!(message.contains("nested too deeply"), "{message}");
+        }
+    }
+
+    #[test]
+    fn test_long_operator_chain_is_an_error() {
+        // A chain within the limit keeps its left-deep shape
+        let ok = format!(
+            "MATCH (n) WHERE {} RETURN n",
+            vec!["n.a = 1"; 200].join(" OR ")
+        );
+        assert!(Parser::new(&ok).parse().is_ok());
+
+        for op in [" AND ", " OR ", " + ", " * "] {
+            let query = format!(
+                "MATCH (n) WHERE n.x = {} RETURN n",
+                vec!["1"; 100_000].join(op)
+            );
+            let message = nesting_error(&query);
+            assert!(message.contains("nested too deeply"), "{message}");
+        }
+
+        // Chains inside nested parentheses add up
+        let query = format!(
+            "MATCH (n) WHERE n.x = {}1{} RETURN n",
+            "(".repeat(100),
+            ")+1+1+1".repeat(100)
+        );
+        let message = nesting_error(&query);
+        assert!(message.contains("nested too deeply"), "{message}");
+
+        // Siblings do not add up
+        let wide = format!(
+            "MATCH (n) WHERE n.x = [{}] RETURN n",
+            vec!["abs(1 + 2)"; 10_000].join(", ")
+        );
+        assert!(Parser::new(&wide).parse().is_ok());
+    }
+
+    #[test]
+    fn test_too_many_clauses_is_an_error() {
+        let ok = format!("MATCH (a){} RETURN a", "-[:KNOWS]->()".repeat(100));
+        assert!(Parser::new(&ok).parse().is_ok());
+
+        for query in [
+            format!("MATCH (a){} RETURN a", "-[:KNOWS]->()".repeat(100_000)),
+            format!("{}RETURN a", "MATCH (a) ".repeat(100_000)),
+            format!("MATCH (a) {}RETURN a", "WITH a ".repeat(100_000)),
+            format!("{}RETURN 1", "UNWIND [1] AS x ".repeat(100_000)),
+            format!("MATCH (a) SET {}", vec!["a.p = 1"; 100_000].join(", ")),
+        ] {
+            let message = nesting_error(&query);
+            assert!(message.contains("too many clauses"), "{message}");
         }
     }
 }
